@@ -376,6 +376,8 @@ mutual
     let st := if hasElse then st.edge hdr elseB .condF else st.edge hdr exitBk .condF
     let st := procList { st with cur := bodyB } body
     let st := st.edgeUnlessExit st.cur hdr .loop
+    -- the loop context is popped when the body is finished: a break / continue in the else clause belongs to the enclosing loop (repair bc75039)
+    let st := { st with loops := savedLoops }
     let st :=
       if hasElse then
         let st := procList { st with cur := elseB } orelse    -- the items are else_clause nodes: procStmt processes their Body
